@@ -483,3 +483,24 @@ def fresh_index(ctx, shape, tag="ix"):
         ctx.assume(z3.And(k >= 0, V.Z(k) < V.Z(d)), why="skolem-index")
         ix.append(k)
     return tuple(ix)
+
+
+def broadcast_to(ctx, arr: SArr, shape):
+    """np.broadcast_to: read-only view with the requested shape."""
+    shape = tuple(shape)
+    if arr.ndim > len(shape):
+        raise PyExc("ValueError", "input operand has more dimensions than allowed by the axis remapping")
+    off = len(shape) - arr.ndim
+    flags = []
+    for ax, d in enumerate(arr.shape):
+        tgt = shape[off + ax]
+        if not is_sym(d) and d == 1:
+            flags.append(not (not is_sym(tgt) and tgt == 1))
+        else:
+            if not _same_dim(ctx, d, tgt):
+                raise PyExc("ValueError", "operands could not be broadcast together with remapped shapes")
+            flags.append(False)
+
+    def elem(ix):
+        return arr.elem(tuple(0 if fl else ix[off + ax] for ax, fl in enumerate(flags)))
+    return SArr(shape, elem, arr.dtype, arr.backend, owner=arr.owner)
